@@ -713,6 +713,15 @@ func (c *Ctx) FPToBV(a *Term, w int, signed bool) *Term {
 	return c.mk(fmt.Sprintf("(_ fp.to_ubv %d) RTZ", w), BV(w), a)
 }
 
+// IntToBV64 is (_ int2bv 64): the integer modulo 2^64 as a bit-vector.
+func (c *Ctx) IntToBV64(a *Term) *Term {
+	if a.IsConst() && a.Big != nil {
+		m := new(big.Int).And(a.Big, new(big.Int).SetUint64(^uint64(0)))
+		return c.BVC(64, m.Uint64())
+	}
+	return c.mk("(_ int2bv 64)", BV(64), a)
+}
+
 // FPFromBits reinterprets a 64-bit vector as an IEEE double.
 func (c *Ctx) FPFromBits(a *Term) *Term {
 	if a.IsConst() {
